@@ -28,7 +28,12 @@ Definition start_built (tbl : list (nat * (sexp * sexp))) (e : event) : bool :=
 
 Definition rt_b (sc : scope) : bool := Equal (ParseScope (String sc)) sc.
 
-(* the time stamps never decrease, one per observed event *)
+(* the time stamps never decrease, one per observed event.  The stamp of a phase marker is the
+   model's clock for that phase (the sweep of expired tokens in setAuthorization), so it has to
+   lie inside the phase: between taking and releasing the host's lock.  For a call the harness
+   launched while another call sat in a slow token request (holding that lock) the marker is
+   therefore recorded and stamped at the call's first observable action, after the held phase -
+   not at its launch, when it had not got the lock yet (harness/authsim: Step.Hold, Ev.W). *)
 Fixpoint sortedb (l : list Z) : bool :=
   match l with
   | a :: (b :: _) as t => (a <=? b)%Z && sortedb t
